@@ -16,7 +16,7 @@ CLAIMS = {
         "Every ONNX node emission site of converter and plugins (direct builder calls, getattr/ir.Node/add_node forms with the operator name "
         "constant-propagated through helpers) is enumerated; for each, the set of target opsets that can reach the site is computed from enclosing "
         "tests, abort-guards, flag variables and predicate helpers, and the operator, its attribute names and its input/output arity must exist in the "
-        "onnx.defs schema at every such opset in 21..newest; a lowering that gates an operator's dtype handling on the opset at which ONNX extended the operator's input types must cover every type added at that version; opset-gated optimizer rewrites must be semantics-preserving (C02 instances for passes that test the graph opset). This decides 'nothing newer than the declared opset is emitted' for every plugin, "
+        "onnx.defs schema at every such opset in 21..newest; a lowering that gates an operator's dtype handling on the opset at which ONNX extended the operator's input types must cover every type added at that version; opset-gated optimizer rewrites must be semantics-preserving (C02 instances for passes that test the graph opset); nested Loop/If scopes must inherit the requested opset from an attribute that exists; literal values of enumerated string attributes must be members of the operator's value set (frozen table). This decides 'nothing newer than the declared opset is emitted' for every plugin, "
         "which the tests (one opset per plugin) cannot.",
         "Decides operator/attribute/arity availability only; numeric agreement across opsets, ORT kernel availability and checker acceptance are not decided. "
         "Trusted: CPython ast, onnx.defs of the installed onnx, the naming assumption that `opset`/`.opset` denote the target opset. Dynamic operator names that do not "
@@ -39,7 +39,7 @@ CLAIMS = {
         "Every @contextmanager and save/restore function of the package that mutates host state (setattr on patch targets, jax.config, the refcounted patch table, the re-entrancy ContextVar) "
         "must mutate inside the try whose finally restores (or in the single statement right before it), yield inside it and undo loops in reverse; every write to a jax/flax/equinox/numpy/... "
         "module or class attribute must be paired in the same function or run only while `import jax2onnx` executes (computed from the top-level import closure); package context managers "
-        "may only be entered through with/ExitStack; in every save/restore pair the saved value is read before the first write and is what the restore writes, and generic patchers restore inherited attributes by deleting the override (ownership probe + delattr). This covers every unwinding point of every patch stack, which no test exercises.",
+        "may only be entered through with/ExitStack; in every save/restore pair the saved value is read before the first write and is what the restore writes, and generic patchers restore inherited attributes by deleting the override (ownership probe + delattr); the x64 flag is switched through JAX's scoped context manager. This covers every unwinding point of every patch stack, which no test exercises.",
         "Not decided: pollution of jax.jit trace caches, mutation of user modules by library code, behavioural probes. Assumes objects named self/cls/ctx/owner/*builder are converter-owned. "
         "Five genuine unscoped writes (jnp.cumsum, *_p attributes) are recorded in known_findings.json; the apply_monkey_patches leak (fix de6b809) and the inherited-attribute restore (fix 908e58f) were repaired.",
         "DESIGN.md §3 C13",
@@ -59,20 +59,20 @@ CLAIMS = {
         "For every pass in _OPTIMIZER_PASSES the analysis derives which node outputs change meaning (input re-routing of a retained node, upstream bypass in a pair fold) or disappear (removal without a "
         "dominating replace_all_uses_with) and demands a graph-output / nested-graph observation test on exactly those values that is negative on every path to the rewrite; first-input-only chain walks "
         "may only accept single-data-input ops or ops whose side operands are tested scalar-constant; the reshape-pair guard must keep symbolic dims distinguishable; fresh values must be defined; "
-        "function-body passes must not touch initializers/inputs; each commit point must be dominated by its semantic precondition with the right operands; observation tests must cover BOTH observation kinds (graph output and capture by a nested Loop/If body), the observation helpers must reach both base tests (predicate completeness), and _is_inverse_perm is evaluated against its definition on all permutation pairs up to rank 4; the value-identity predicate behind the Swish rewrite is evaluated on abstract values (two outputs of one node are different values); the operator tables that make nodes transparent for Transpose/Reshape folding may contain point-wise operators only (schema attribute oracle + frozen reference); the cast-elimination decision procedure is re-decided from C17. This quantifies over every rewrite site "
+        "function-body passes must not touch initializers/inputs; each commit point must be dominated by its semantic precondition with the right operands; observation tests must cover BOTH observation kinds (graph output and capture by a nested Loop/If body), the observation helpers must reach both base tests (predicate completeness), and _is_inverse_perm is evaluated against its definition on all permutation pairs up to rank 4; the value-identity predicate behind the Swish rewrite is evaluated on abstract values (two outputs of one node are different values); the operator tables that make nodes transparent for Transpose/Reshape folding may contain point-wise operators only (schema attribute oracle + frozen reference); the cast-elimination decision procedure is re-decided from C17; node predicates that classify by operator table must also require the standard ONNX domain. This quantifies over every rewrite site "
         "and every choice of observed values, which the 47 fold-happens tests do not.",
         "Not decided: numerical equivalence of a rewrite whose guards are all present (permutation arithmetic, axis remapping), CSE and upstream onnx_ir passes. Roles are recognised through the module's own "
-        "accessors; an observation test the analysis cannot attribute makes the instance UNRESOLVED. Six genuine defect groups found by these rules were repaired (fix commits f81538a, 66aee58, fefc5f3, 4efb73f, 1da6963, 52c1b25). Frozen table: POINTWISE_OPS (operators outside it without an axis-like attribute are UNRESOLVED).",
+        "accessors; an observation test the analysis cannot attribute makes the instance UNRESOLVED. Six genuine defect groups found by these rules were repaired (fix commits f81538a, 66aee58, fefc5f3, 4efb73f, 1da6963, 52c1b25, d9a2d47). Frozen table: POINTWISE_OPS (operators outside it without an axis-like attribute are UNRESOLVED).",
         "DESIGN.md §3 C02 and Appendix A",
     ),
     "C14": (
         "taint analysis of id()/hash() results, set-typed iteration lint with order-sensitivity classification of loop bodies (mypy-typed cross-check in the thorough tier), module-state-to-name flow check",
         "Every id()/hash() call on the export path is followed to its uses (keys/comparisons are fine; names, attributes, sort keys are violations); every iteration over a set/frozenset "
         "(for, comprehension, list(S), S.pop(), next(iter(S))) is classified by what its body does (name allocation, node emission/insertion, append to a list whose order is observed later, "
-        "first-match selection); module-level mutable state written on the export path must not reach a model name; process-wide markers consulted by the lowering must be reset on every exit; plugin discovery order is reported. "
+        "first-match selection); module-level mutable state written on the export path must not reach a model name; process-wide markers consulted by the lowering must be reset on every exit; once-per-process latches must not guard work done on per-conversion objects; plugin discovery order is reported. "
         "The hash-seed / allocation-history quantifier is exactly what a single-process test cannot vary.",
         "Not decided: byte identity itself, onnx_ir passes, protobuf serialisation. Set typing is syntactic in the quick tier (constructors, annotations, helper return annotations) and cross-checked "
-        "against mypy-inferred types in the thorough tier. The one genuine hit (function/graph input order from a set[str]) was repaired (fix commit 16ea4a8).",
+        "against mypy-inferred types in the thorough tier. Two genuine hits were repaired (input order from a set[str]: fix 16ea4a8; gather constant-evaluator latch: fix 0219522).",
         "DESIGN.md §3 C14",
     ),
     "C01": (
@@ -82,16 +82,16 @@ CLAIMS = {
         "output finalisation in order on every path, and plugins must not dispatch sub-jaxpr equations privately; non-commutative binary lowerings must feed eqn.invars[0]/[1] to the operator's first/second operand (taint analysis); a parameter that is read must be used; pattern matchers that walk through Reshape/Expand must consult a shape before choosing an axis; jax.numpy-level binaries must not force one operand into the other's dtype; a promoted dtype must not be overridden by one operand's own dtype. A dropped semantic parameter means two different JAX programs export to the same model - "
         "a necessary-condition breach visible for every plugin, not only the sampled ones.",
         "Decides parameter consumption and dispatch discipline ONLY; the numerical correctness of every lowering (operator choice, attribute values, rounding, clamping, integer division) is not decided and "
-        "cannot be by this family. Trusted: AST scan of bind() sites in the installed jax, the inert/derivable tables (one reason per entry). Three genuine hits were repaired (lax.round 29bea5a, conv batch groups f5d6c8d, LpNormalization matcher f5d1361); seven mixed-dtype hits (R-C01g) are listed in known_findings.json.",
+        "cannot be by this family. Trusted: AST scan of bind() sites in the installed jax, the inert/derivable tables (one reason per entry). Four genuine hits were repaired (lax.round 29bea5a, conv batch groups f5d6c8d, LpNormalization matcher f5d1361, lax.reshape dimensions 0c3fa89); seven mixed-dtype hits (R-C01g) are listed in known_findings.json.",
         "DESIGN.md §3 C01",
     ),
     "C09": (
-        "dtype-provenance classification of every array reaching a non-downcasting constant sink + save/restore pairing of the x64 flag on the CFG + who-may-run check of x64-sensitive JAX calls against the scoped-flag blocks (call graph)",
+        "dtype-provenance classification of every array reaching a non-downcasting constant sink + scoped-switch / pairing analysis of the x64 flag + who-may-run check of x64-sensitive JAX calls against the scoped-flag blocks (call graph) + promotion-lattice lint on jax.numpy-level plugins",
         "All ~240 sites where an array becomes a model constant without passing the float policy (ir.tensor, const_value=, tensor_attr, bind_const_for_var) are enumerated and the array's dtype provenance is "
         "classified (explicit dtype / derived from an operand / parameter / default-float64 numpy literal); a default-float64 literal there puts a DOUBLE tensor into a single-precision export. "
-        "Every jax_enable_x64 update must be covered by a restoring finally and the restored value must have been read from jax.config on every path before the first update. In every function that scopes the flag, no x64-sensitive JAX call (canonicalize_dtype, jnp.*, jax.random.*, eval_shape, make_jaxpr, device_put) may run outside the scoped block, directly or through package helpers: it would resolve dtypes under the process flag instead of enable_double_precision.",
+        "Every jax_enable_x64 update must be covered by a restoring finally and the restored value must have been read from jax.config on every path before the first update. In every function that scopes the flag, no x64-sensitive JAX call (canonicalize_dtype, jnp.*, jax.random.*, eval_shape, make_jaxpr, device_put) may run outside the scoped block, directly or through package helpers: it would resolve dtypes under the process flag instead of enable_double_precision. The flag must be switched through JAX's scoped context manager (a manual update that mixes a context-local read with a process-wide write is a violation); nested scopes must inherit the precision from an existing attribute; jax.numpy-level lowerings must not promote operand dtypes with NumPy's lattice without clamping float64.",
         "NOT decided: double-precision accuracy of an export, hidden float32 casts inside individual lowerings (no sound static rule in reach; said so rather than linted). Provenance that cannot be resolved "
-        "locally is UNRESOLVED (26 of 236 today).",
+        "locally is UNRESOLVED (26 of 236 today). The x64 scope defect was repaired (fix 8dfc25e); 16 NumPy-promotion sites (R-C09e) are known findings.",
         "DESIGN.md §3 C09",
     ),
     "C18": (
@@ -112,8 +112,8 @@ CLAIMS = {
     "C05": (
         "writer/reader agreement between extracted name patterns and reader predicates (finite-domain evaluation of the keep predicate, regex matching), who-may-remove check on graph inputs, guard dominance on the CFG",
         "The f-string patterns the converter uses for positional graph inputs are extracted and instantiated; every reader that decides keeping / mapping positional inputs must accept them; graph inputs may be "
-        "removed only by the prune pass, which must be top-graph-only, order-preserving and consult the always-keep rule first; every name validation must raise before rename_values / before the converter runs, and the name-collision check must look into all graph values (inputs, outputs, initializers, node outputs); graph inputs / outputs take their declared element type and shape from the traced variable's aval; the optimizer's annotation-refresh rules (C08 R-C08c/d) are re-decided because a refreshed value can be a graph output.",
-        "Not decided: declared dtypes and shapes vs jax.eval_shape, output ordering of pytrees. The in_<i>_nchw defect was repaired (fix 64e066d).",
+        "removed only by the prune pass, which must be top-graph-only, order-preserving and consult the always-keep rule first; every name validation must raise before rename_values / before the converter runs, and the name-collision check must look into all graph values (inputs, outputs, initializers, node outputs); graph inputs / outputs take their declared element type and shape from the traced variable's aval; every creator of a graph input maps the dtype through the float-policy mapper with the export's precision flag; the optimizer's annotation-refresh rules (C08 R-C08c/d) are re-decided because a refreshed value can be a graph output.",
+        "Not decided: declared dtypes and shapes vs jax.eval_shape, output ordering of pytrees. The in_<i>_nchw defect (fix 64e066d) and the NCHW input element type (fix 2da1a2f) were repaired.",
         "DESIGN.md §3 C05",
     ),
     "C12": (
@@ -136,8 +136,8 @@ CLAIMS = {
         "key-domain classification of memo stores in LowerDimExpr, branch-table check of _convert_op against the reference operator table, pairing of graph-input creation with origin recording on the CFG, single-scope def-use check",
         "Every memoising producer of LowerDimExpr must key in its own domain (constant tag / separator), so differently typed pairs cannot collide; each dimension operation must lower to the reference ONNX operator with "
         "operands in order and unknown operations must raise; a value that becomes a graph input for a traced variable must get its symbolic-dim origins recorded on that same value with per-axis pairing; "
-        "all symbolic_shape calls must share one scope created once; symbol identity in the optimizer's shape guard and in the function dedup key is re-decided from C02 / C07.",
-        "Not decided: broadcasting at size 1, run-time integer results, per-plugin shape arithmetic. The optimizer side (two symbols never equal) is C02 R-C02c. The memo-key collision was repaired (fix c1479e1).",
+        "all symbolic_shape calls must share one scope created once; symbol identity in the optimizer's shape guard and in the function dedup key is re-decided from C02 / C07; the Shape a symbolic dimension is read from must be taken of that dimension's own origin (no cross-iteration latch); static and symbolic branches of a shape rule must aggregate operand sizes alike; floordiv needs a floor correction.",
+        "Not decided: broadcasting at size 1, run-time integer results, per-plugin shape arithmetic. The optimizer side (two symbols never equal) is C02 R-C02c. The memo-key collision (fix c1479e1) and the concatenate symbolic extent (fix fa1c0e6) were repaired; the bare-Div floordiv is a known finding.",
         "DESIGN.md §3 C04",
     ),
     "C03": (
@@ -145,7 +145,7 @@ CLAIMS = {
         "All ~1800 places where lowering or optimizer code names a value (`_outputs=[...]`, ir.Value(name=...)) are classified as fresh / existing / derived / parameter / interface / literal; a literal name at a site that can run "
         "more than once per graph scope is a duplicate definition. Lowering contexts may only be created by the three scope constructors, and make_subgraph_context must wrap BOTH name allocators with a parent-derived prefix on "
         "every path (uniqueness at any nesting depth, which example-based regression tests cannot settle). Initializer lists are written only through function-mode aware entry points; collected functions are attached with "
-        "their domain imports; nested contexts must receive copies of the parent's value-bearing scope tables; slices cut from a multi-output node's result tuple must coincide with the sections of its declared output-name list (symbolic prefix sums) and be paired with the collection that generated the section.",
+        "their domain imports; nested contexts must receive copies of the parent's value-bearing scope tables and inherit settings through attributes that exist on the parent; slices cut from a multi-output node's result tuple must coincide with the sections of its declared output-name list (symbolic prefix sums) and be paired with the collection that generated the section.",
         "Not decided: onnx.checker / strict shape inference / ORT load results, def-before-use of every value, call-node arity. Names derived from node names rely on the name-fix pass running first.",
         "DESIGN.md §3 C03",
     ),
@@ -153,14 +153,14 @@ CLAIMS = {
         "def-use across the cond branch extraction and If emission, dominance of rejection guards, data-provenance of Loop entry inputs",
         "JAX stores cond branches as (false, true): element 1 must reach then_branch and element 0 else_branch of the emitted If; reverse scans, inconsistent arity / scanned extents, missing jaxprs and N-way switches must raise "
         "before anything is emitted (the reverse rejection must be a test of `reverse` alone, or the reached helper must read it); bodies go through the checked dispatcher; while_loop's initial Loop condition must be the cond jaxpr evaluated on the initial state (the structural necessary condition for zero-iteration "
-        "loops, a path no pinned test executes); scan / fori trip counts must derive from the length / trip_count parameter or the scanned extent - for scan on every definition that reaches the Loop (CFG reaching definitions); fori_loop must bind trip_count = upper - lower with the caller's lower and offset the body index by lower.",
+        "loops, a path no pinned test executes); scan / fori trip counts must derive from the length / trip_count parameter or the scanned extent - for scan on every definition that reaches the Loop (CFG reaching definitions); fori_loop must bind trip_count = upper - lower with the caller's lower and offset the body index by lower; the while_loop body must evaluate the next condition on the state it outputs.",
         "Not decided: actual trip counts, carried-value wiring, stacked outputs, zero-trip results - they need execution.",
         "DESIGN.md §3 C06",
     ),
     "C08": (
         "guard / provenance analysis of every annotation write in export post-processing + pairing of payload and type writes on the CFG + iteration-order classification (element provenance) of annotation refresh loops",
         "Post-processing may assign a `.shape` only to non-interface values (never reached from the true edge of the io-name test) and only with the result of _unknown_shape_like, which must turn every dimension into None or "
-        "keep it (via a _normalize_dim that returns the same dimension); replacing a constant's payload must be followed by the matching `.type` assignment on every path; every loop that re-derives node annotations from current inputs must visit producers before consumers (graph order, a forward-built list or a reversed backward-built list - never a set or a backward list); element types are copied input->output only for operators whose ONNX schema gives output 0 the type of input 0; shape / dimension comparison keys must keep different symbols and extents distinguishable (finite-domain evaluation); after copying one operand's shape onto a broadcasting node every exit re-assigns the shape or has a single shaped operand; value allocation narrows only floats wider than the default float.",
+        "keep it (via a _normalize_dim that returns the same dimension); replacing a constant's payload must be followed by the matching `.type` assignment on every path; every loop that re-derives node annotations from current inputs must visit producers before consumers (graph order, a forward-built list or a reversed backward-built list - never a set or a backward list); element types are copied input->output only for operators whose ONNX schema gives output 0 the type of input 0; shape / dimension comparison keys must keep different symbols and extents distinguishable (finite-domain evaluation); after copying one operand's shape onto a broadcasting node every exit re-assigns the shape or has a single shaped operand; value allocation narrows only floats wider than the default float; chain folds refresh the nodes they re-route or admit only operators whose shape is re-derived elsewhere.",
         "Not decided: the truth of annotations stamped by ~600 plugins and of the optimizer's metadata refresh (later propagate passes re-derive most shapes, so a missing in-step refresh is not statically a wrong final annotation). Three defects found by R-C08c/f/g were repaired (fix 16c99d0, 33e03e2, 916c8c1).",
         "DESIGN.md §3 C08",
     ),
